@@ -26,7 +26,8 @@ theorem bond_maps_inverse : ∀ o ∈ Rdkit.chythonOrders, ∃ t, bondTypeOf o =
 
 /-- `_bond_map` is defined on exactly the documented orders and writes the type RDKit documents for that order -/
 theorem bond_map_agrees_spec :
-    bondMap.map (·.1) = Rdkit.chythonOrders ∧ ∀ e ∈ bondMap, Rdkit.orderOfType e.2 = some e.1 := by decide
+    (∀ o ∈ bondMap.map (·.1), o ∈ Rdkit.chythonOrders) ∧ (∀ o ∈ Rdkit.chythonOrders, o ∈ bondMap.map (·.1)) ∧
+    (bondMap.map (·.1)).Nodup ∧ ∀ e ∈ bondMap, Rdkit.orderOfType e.2 = some e.1 := by decide
 
 /-- `_rdkit_bond_map` reads every documented type as its order; anything else it accepts becomes the special order 8 -/
 theorem rdkit_bond_map_agrees_spec :
@@ -278,13 +279,61 @@ theorem toBondStereo_spec (env : StereoEnv) (ids : List Nat) (n k : Nat) (b : Bo
     (env.centers.lookup n = none → toBondStereo env ids (n, k, b) = .ok none) ∧
     (∀ s e i j s0 s1, b.stereo = some s → env.centers.lookup n = some (n, k) → env.sct.lookup (n, k) = some e →
       idxOf ids n = .ok i → idxOf ids k = .ok j → idxOf ids e.n0 = .ok s0 → idxOf ids e.n1 = .ok s1 →
-      toBondStereo env ids (n, k, b) = .ok (some (i, j, Rdkit.stereoOfCis s, (s0, s1)))) := by
+      toBondStereo env ids (n, k, b) = .ok (some (i, j, Rdkit.stereoOfCis s, (s0, s1), i))) := by
   refine ⟨?_, ?_, ?_⟩
   · intro h; simp [toBondStereo, h, pure, Except.pure]
   · intro h; cases hs : b.stereo <;> simp [toBondStereo, hs, h, pure, Except.pure]
   · intro s e i j s0 s1 hs hc he hi hj h0 h1
     simp [toBondStereo, hs, hc, he, hi, hj, h0, h1, getKey, liftPy, bind, Except.bind, pure, Except.pure,
       (constants_agree_spec s).2]
+
+/-- `SetStereoAtoms` is always called with a pair RDKit accepts: whichever way the double bond was added (as `bonds()` yields
+it, or reversed by the direction rule), the first stereo atom is a neighbour of RDKit's begin atom and the second of its
+end atom — provided only what the dictionaries promise (`n1` is bonded to `nm[0]`, `m1` to `nm[1]`).  Before repo commit
+a2868f9 this failed for reversed bonds (`C/B=C/C`, `CC/S(C)(=O)=N/C`: `RuntimeError`). -/
+theorem stereo_atoms_accepted (bonds : List RBond) (i j : Nat) (st : RdStereo) (s0 s1 i0 : Nat)
+    (hij : i0 = i ∨ i0 = j) (hne : i ≠ j)
+    (hb : ∃ rb ∈ bonds, (rb.bgn = i ∧ rb.end_ = j) ∨ (rb.bgn = j ∧ rb.end_ = i))
+    (h0 : bondedR bonds i0 s0 = true) (h1 : bondedR bonds (if i0 = i then j else i) s1 = true) :
+    ∃ out, applyStereo bonds i j st (s0, s1) i0 = .ok out := by
+  unfold applyStereo
+  obtain ⟨rb0, hrb0, hp0⟩ := hb
+  have hsome : (bonds.find? (fun b => (b.bgn == i && b.end_ == j) || (b.bgn == j && b.end_ == i))).isSome := by
+    rw [List.find?_isSome]
+    refine ⟨rb0, hrb0, ?_⟩
+    rcases hp0 with ⟨a, b⟩ | ⟨a, b⟩ <;> simp [a, b]
+  cases hf : bonds.find? (fun b => (b.bgn == i && b.end_ == j) || (b.bgn == j && b.end_ == i)) with
+  | none => rw [hf] at hsome; cases hsome
+  | some rb =>
+    have hp := List.find?_some hf
+    simp only [Bool.or_eq_true, Bool.and_eq_true, beq_iff_eq] at hp
+    simp only
+    rcases hp with ⟨hb1, he1⟩ | ⟨hb1, he1⟩ <;> rcases hij with hi | hi
+    · -- rb = (i, j), i0 = i
+      have : (rb.bgn != i0) = false := by simp [hb1, hi]
+      simp only [this, Bool.false_eq_true, if_false]
+      rw [hi] at h0; simp only [hi, if_true] at h1
+      simp [hb1, he1, h0, h1]
+    · -- rb = (i, j), i0 = j
+      have : (rb.bgn != i0) = true := by simp [hb1, hi, hne]
+      have hji : ¬ j = i := fun e => hne e.symm
+      simp only [this, if_true]
+      rw [hi] at h0; simp only [hi, hji, if_false] at h1
+      simp [hb1, he1, h0, h1]
+    · -- rb = (j, i), i0 = i
+      have : (rb.bgn != i0) = true := by simp [hb1, hi]; exact fun e => hne e.symm
+      simp only [this, if_true]
+      rw [hi] at h0; simp only [hi, if_true] at h1
+      simp [hb1, he1, h0, h1]
+    · -- rb = (j, i), i0 = j
+      have : (rb.bgn != i0) = false := by simp [hb1, hi]
+      have hji : ¬ j = i := fun e => hne e.symm
+      simp only [this, Bool.false_eq_true, if_false]
+      rw [hi] at h0; simp only [hi, hji, if_false] at h1
+      simp [hb1, he1, h0, h1]
+
+example : ∃ out, applyStereo [⟨0, 1, .SINGLE, .STEREONONE, none⟩, ⟨2, 1, .DOUBLE, .STEREONONE, none⟩, ⟨2, 3, .SINGLE, .STEREONONE, none⟩]
+    1 2 .STEREOE (0, 3) 1 = .ok out := ⟨_, rfl⟩
 
 /-! ## 6. dative direction -/
 
